@@ -1,0 +1,70 @@
+//go:build verif
+
+// Hooks of the verification harness (/verif) for the receive-path properties
+// (C12, C10, C17, C13, C20). Add-only, compiled only with the `verif` tag,
+// nothing here changes the behaviour of the package.
+
+package uasc
+
+import (
+	"sync"
+	"time"
+
+	"github.com/gopcua/opcua/ua"
+)
+
+var (
+	verifRecvMu   sync.Mutex
+	verifRecvInst = map[*SecureChannel]map[[2]uint32]*channelInstance{}
+)
+
+// VerifHandleOPNResponse runs the real handleOpenSecureChannelResponse on a
+// client channel the way open() does around it (openingInstance set before,
+// cleared after), for a response carrying the given security token. It starts
+// the renewal and expiration goroutines of the real code.
+func (s *SecureChannel) VerifHandleOPNResponse(channelID, tokenID uint32, createdAt time.Time, revisedLifetimeMs uint32, localNonce, serverNonce []byte) error {
+	inst := newChannelInstance(s)
+	s.openingInstance = inst
+	defer func() { s.openingInstance = nil }()
+	resp := &ua.OpenSecureChannelResponse{
+		ResponseHeader: &ua.ResponseHeader{},
+		SecurityToken:  &ua.ChannelSecurityToken{ChannelID: channelID, TokenID: tokenID, CreatedAt: createdAt, RevisedLifetime: revisedLifetimeMs},
+		ServerNonce:    serverNonce,
+	}
+	if err := s.handleOpenSecureChannelResponse(resp, localNonce, inst); err != nil {
+		return err
+	}
+	verifRecvMu.Lock()
+	if verifRecvInst[s] == nil {
+		verifRecvInst[s] = map[[2]uint32]*channelInstance{}
+	}
+	verifRecvInst[s][[2]uint32{channelID, tokenID}] = inst
+	verifRecvMu.Unlock()
+	return nil
+}
+
+// VerifExpireNow back-dates the creation time of the instance installed by
+// VerifHandleOPNResponse for (channelID, tokenID) so that its expiry is due,
+// and runs the real scheduleExpiration for it synchronously (the timer fires
+// at once). It reports whether such an instance is known.
+func (s *SecureChannel) VerifExpireNow(channelID, tokenID uint32) bool {
+	verifRecvMu.Lock()
+	inst := verifRecvInst[s][[2]uint32{channelID, tokenID}]
+	verifRecvMu.Unlock()
+	if inst == nil {
+		return false
+	}
+	s.instancesMu.Lock()
+	inst.createdAt = time.Now().Add(-2*inst.revisedLifetime - time.Hour)
+	s.instancesMu.Unlock()
+	s.scheduleExpiration(inst)
+	return true
+}
+
+// VerifForget drops the harness bookkeeping for the channel.
+func (s *SecureChannel) VerifForget() {
+	verifRecvMu.Lock()
+	delete(verifRecvInst, s)
+	verifRecvMu.Unlock()
+}
+
